@@ -528,6 +528,10 @@ def fault_table(p, led, tier):
     n_runs = [0]
     n_paths = [0]
     n_work = [0]
+    complete_m = p.find_method(ctrl, "complete_operation")
+    abort_m0 = p.find_method(ctrl, "abort_operation")
+    if complete_m is None or abort_m0 is None:
+        raise AnchorError("CellCycleController.complete_operation / abort_operation not found")
     for req in lists:
         for pre in prestates:
             def go(o):
@@ -584,6 +588,17 @@ def fault_table(p, led, tier):
                     res = dict(raised=repr(e.exc))
                 locks_ = {nm_: (c.fields["resources"][nm_].fields["owner"], c.fields["resources"][nm_].fields["hold_count"]) for nm_ in names}
                 res.update(locks=locks_, active="op" in c.fields["active_operations"], log=log, validated=use_validate)
+                # aftermath ("followed by arbitrary further operations"): the other operation now ends as well; whatever it
+                # releases must not come back to the operation that has already ended
+                how_other = (len(req) + sum(1 for x in pre if x != "free")) % 2      # completes / is aborted, alternating over the table
+                try:
+                    if how_other == 0:
+                        it.call_fi(complete_m, [c, other], {})
+                    else:
+                        it.call_fi(abort_m0, [c, other, "ended"], {})
+                    res["after"] = {nm_: c.fields["resources"][nm_].fields["owner"] for nm_ in names}
+                except PyRaise as e:
+                    res["after_raised"] = repr(e.exc)
                 return res
             try:
                 paths = explore(go, max_paths=4000)
@@ -605,6 +620,11 @@ def fault_table(p, led, tier):
                         bad.append(f"{tag}: resource {nm_} was never requested but changed to owner={own} hold_count={hc}")
                     if nm_ in req and st == "held" and (own, hc) != ("other", 1):
                         bad.append(f"{tag}: resource {nm_} held by another (not pre-emptable) operation was disturbed: owner={own} hold_count={hc}")
+                for nm_, own in (r.get("after") or {}).items():
+                    if own == "op":
+                        bad.append(f"{tag}: after the other operation ended too, resource {nm_} is owned by the operation that had already ended (a released lock was handed to a finished waiter)")
+                if "after_raised" in r:
+                    bad.append(f"{tag}: ending the other operation afterwards raises {r['after_raised']}")
                 works = [x for x in r["log"] if x[0] == "work"]
                 if len(works) > 1:
                     bad4.append(("once", f"{tag}: work function ran {len(works)} times"))
